@@ -63,8 +63,12 @@ type DocConfig struct {
 	Perm          pdf.Perm
 	ID            [][]byte
 	// generator switches
-	NoObjStm      bool // never call WriteCompressed
-	WithRejected  bool // mix in calls the Writer must refuse
+	NoObjStm     bool // never call WriteCompressed
+	WithRejected bool // mix in calls the Writer must refuse
+	// LateClose closes some stream writers a second time later on (the deferred
+	// Close behind an explicit one): while the next stream is open, or before
+	// the Writer is closed.
+	LateClose     bool
 	NoEncryption  bool
 	NoFilters     bool
 	MaxOps        int
@@ -190,21 +194,22 @@ type Problem struct{ Key, Detail string }
 
 // Doc is an executed write program with its model.
 type Doc struct {
-	Cfg       DocConfig
-	Data      []byte
-	Objs      []*WObj
-	ByRef     map[pdf.Reference]*WObj
-	Unwritten []pdf.Reference
-	Problems  []Problem
-	Ops       []string
-	Password  string
-	Rejected  int
-	Pages     pdf.Reference
-	Title     string
-	Author    string
-	Custom    map[string]string
-	ID        [][]byte // as reported by the writer
-	MetaTitle string   // title in the XMP metadata stream, if one was written
+	Cfg        DocConfig
+	Data       []byte
+	Objs       []*WObj
+	ByRef      map[pdf.Reference]*WObj
+	Unwritten  []pdf.Reference
+	Problems   []Problem
+	Ops        []string
+	Password   string
+	Rejected   int
+	LateCloses int // stream writers closed a second time, later
+	Pages      pdf.Reference
+	Title      string
+	Author     string
+	Custom     map[string]string
+	ID         [][]byte // as reported by the writer
+	MetaTitle  string   // title in the XMP metadata stream, if one was written
 	// Cat holds the optional catalog entries that were set (Pages is in Pages).
 	Cat pdf.Catalog
 
@@ -550,6 +555,7 @@ func BuildDoc(r *kit.Rand, cfg DocConfig) (*Doc, error) {
 	}
 	wideDone := !cfg.WideObjStm
 	nops := cfg.MaxOps
+	var lateClose io.Closer
 	for i := 0; i < nops; i++ {
 		k := r.Intn(10)
 		if !wideDone && (i == nops-1 || r.Chance(1, 3)) {
@@ -723,6 +729,11 @@ func BuildDoc(r *kit.Rand, cfg DocConfig) (*Doc, error) {
 			}
 			var deferred []*WObj
 			var dargs []shared
+			if lateClose != nil {
+				lateClose.Close()
+				lateClose = nil
+				d.LateCloses++
+			}
 			if cfg.WithRejected && r.Chance(1, 2) {
 				_, err := w.OpenStream(alloc(), pdf.Dict{})
 				d.Unwritten = append(d.Unwritten, allocated[len(allocated)-1])
@@ -767,6 +778,9 @@ func BuildDoc(r *kit.Rand, cfg DocConfig) (*Doc, error) {
 			if err := s.Close(); err != nil {
 				return d, fmt.Errorf("%s: stream Close (filters %v, %d bytes): %w", cfg.String(), names, len(body), err)
 			}
+			if cfg.LateClose && r.Chance(1, 2) {
+				lateClose = s
+			}
 			checkArgs("OpenStream", append(dargs, arg)...)
 			if preEncoded {
 				for i, want := range []string{"ASCIIHexDecode", "VerifSpare1", "VerifSpare2", "VerifSpare3", "VerifSpare4"} {
@@ -789,6 +803,10 @@ func BuildDoc(r *kit.Rand, cfg DocConfig) (*Doc, error) {
 		}
 	}
 
+	if lateClose != nil {
+		lateClose.Close()
+		d.LateCloses++
+	}
 	d.Pages = alloc()
 	pagesDict := pdf.Dict{"Type": pdf.Name("Pages"), "Kids": pdf.Array{}, "Count": pdf.Integer(0)}
 	if err := w.Put(d.Pages, pagesDict); err != nil {
